@@ -1,12 +1,179 @@
 import HecsModel.Model.Containers
+import HecsModel.Lemmas.Arena
 /-
-  C13 — Entity builders reflect the last value added per type, through every reuse. (interim)
+  C13 — Entity builders reflect the last value added per type, through every reuse.
+
+  `Arena.TypesNodup`, `Arena.spec` and `updFn` are defined in `Lemmas/Arena.lean`:
+    `Arena.TypesNodup a := (a.slots.map (·.ty)).Nodup`
+    `Arena.spec a : Nat → Option Nat := a.get`
+    `updFn f t v := fun x => if x = t then some v else f x`
 -/
 namespace Hecs.Props.C13
-open Hecs
+open Hecs Hecs.ArenaLemmas
 
 /-- clearing a builder drops exactly the values it holds and leaves it empty -/
 theorem clear_drops_all (a : Arena) : (a.clear).2 = a.vals ∧ (a.clear).1.vals = [] := by
   simp [Arena.clear, Arena.vals]
+
+/-! ### 1. one `add` -/
+
+/-- the value just added is the one read back (holds even without `TypesNodup`: the first slot of
+the type is overwritten) -/
+theorem add_get_same (lay : Nat → TyLayout) (a : Arena) (t v : Nat) :
+    ((a.add lay t v).1).get t = some v :=
+  ArenaLemmas.add_get_same lay a t v
+
+/-- the form asked for, with the builder invariant as a (redundant) hypothesis -/
+theorem add_get_same' (lay : Nat → TyLayout) (a : Arena) (t v : Nat) (_h : a.TypesNodup) :
+    ((a.add lay t v).1).get t = some v :=
+  ArenaLemmas.add_get_same lay a t v
+
+theorem add_get_other (lay : Nat → TyLayout) (a : Arena) (t t' v : Nat) (h : t' ≠ t) :
+    ((a.add lay t v).1).get t' = a.get t' :=
+  ArenaLemmas.add_get_other lay a t t' v h
+
+theorem add_has (lay : Nat → TyLayout) (a : Arena) (t t' v : Nat) :
+    ((a.add lay t v).1).has t' = (t' == t || a.has t') := by
+  rw [has_eq_get_isSome, has_eq_get_isSome]
+  by_cases h : t' = t
+  · subst h; simp [ArenaLemmas.add_get_same]
+  · rw [ArenaLemmas.add_get_other lay a t t' v h]
+    have : (t' == t) = false := by simpa using h
+    simp [this]
+
+/-- `has` agrees with `get` -/
+theorem has_iff_get (a : Arena) (t : Nat) : a.has t = (a.get t).isSome := has_eq_get_isSome a t
+
+theorem add_typesNodup (lay : Nat → TyLayout) (a : Arena) (t v : Nat) (h : a.TypesNodup) :
+    (a.add lay t v).1.TypesNodup :=
+  ArenaLemmas.add_typesNodup lay a t v h
+
+/-- the set of stored types after `add` -/
+theorem add_types (lay : Nat → TyLayout) (a : Arena) (t v : Nat) :
+    (a.add lay t v).1.slots.map (·.ty) =
+      if a.has t then a.slots.map (·.ty) else a.slots.map (·.ty) ++ [t] :=
+  ArenaLemmas.add_types lay a t v
+
+/-- a replaced value is dropped exactly once, and nothing else is dropped -/
+theorem add_dropped (lay : Nat → TyLayout) (a : Arena) (t v : Nat) :
+    (a.add lay t v).2 = match a.get t with | some old => [(t, old)] | none => [] :=
+  ArenaLemmas.add_dropped lay a t v
+
+/-- ledger of one `add`: what was stored plus the new value = what is stored plus what was dropped -/
+theorem add_ledger (lay : Nat → TyLayout) (a : Arena) (t v : Nat) (h : a.TypesNodup) :
+    (a.vals ++ [(t, v)]).Perm ((a.add lay t v).1.vals ++ (a.add lay t v).2) :=
+  ArenaLemmas.add_ledger lay a t v h
+
+theorem empty_typesNodup : ({} : Arena).TypesNodup := by
+  simp [Arena.TypesNodup]
+
+/-! ### 2. refinement to a finite map -/
+
+theorem add_spec (lay : Nat → TyLayout) (a : Arena) (t v : Nat) :
+    (a.add lay t v).1.spec = updFn a.spec t v :=
+  ArenaLemmas.add_spec lay a t v
+
+/-- a script of `add`s is the fold of point updates -/
+theorem addAll_spec (lay : Nat → TyLayout) (a : Arena) (cs d : List Comp) :
+    (a.addAll lay cs d).1.spec = cs.foldl (fun f c => updFn f c.1 c.2) a.spec :=
+  ArenaLemmas.addAll_spec lay a cs d
+
+/-- after a script, `get t` is the last value the script added for `t`, else the previous one -/
+theorem addAll_get (lay : Nat → TyLayout) (a : Arena) (cs d : List Comp) (t : Nat) :
+    (a.addAll lay cs d).1.get t = ((cs.reverse.find? (·.1 == t)).map (·.2)).or (a.get t) := by
+  have := congrFun (ArenaLemmas.addAll_spec lay a cs d) t
+  rw [foldl_updFn] at this
+  exact this
+
+theorem addAll_typesNodup (lay : Nat → TyLayout) (a : Arena) (cs d : List Comp) (h : a.TypesNodup) :
+    (a.addAll lay cs d).1.TypesNodup :=
+  ArenaLemmas.addAll_typesNodup lay a cs d h
+
+/-- every value ends up stored or dropped, exactly once -/
+theorem addAll_ledger (lay : Nat → TyLayout) (a : Arena) (cs : List Comp) (h : a.TypesNodup) :
+    (a.vals ++ cs).Perm ((a.addAll lay cs []).1.vals ++ (a.addAll lay cs []).2) := by
+  simpa using ArenaLemmas.addAll_ledger lay a cs [] h
+
+/-- the same with an arbitrary initial drop list -/
+theorem addAll_ledger' (lay : Nat → TyLayout) (a : Arena) (cs d : List Comp) (h : a.TypesNodup) :
+    (a.vals ++ cs ++ d).Perm ((a.addAll lay cs d).1.vals ++ (a.addAll lay cs d).2) :=
+  ArenaLemmas.addAll_ledger lay a cs d h
+
+/-! ### 3. `clear` -/
+
+theorem clear_spec (a : Arena) :
+    (a.clear).1.vals = [] ∧ (a.clear).2 = a.vals ∧ (∀ t, (a.clear).1.get t = none) ∧
+      (∀ t, (a.clear).1.has t = false) ∧ (a.clear).1.TypesNodup ∧
+      (a.clear).1.laySize = a.laySize ∧ (a.clear).1.layAlign = a.layAlign ∧ (a.clear).1.cursor = 0 := by
+  simp [Arena.clear, Arena.vals, Arena.get, Arena.has, Arena.TypesNodup]
+
+/-! ### 4. `cloneB` -/
+
+/-- serial-fresh: a clone of a tracked value never carries the serial of its origin -/
+theorem cloneSerial_fresh (v k : Nat) (hv : v ≠ 0) (hk : 1 ≤ k) : cloneSerial v k ≠ v :=
+  ArenaLemmas.cloneSerial_fresh v k hv hk
+
+/-- the clone has the same kind, cursor and layout -/
+theorem cloneB_layout (cc : CloneCounts) (b : Builder) :
+    (b.cloneB cc).2.kind = b.kind ∧ (b.cloneB cc).2.arena.cursor = b.arena.cursor ∧
+      (b.cloneB cc).2.arena.laySize = b.arena.laySize ∧ (b.cloneB cc).2.arena.layAlign = b.arena.layAlign :=
+  ⟨rfl, rfl, rfl, rfl⟩
+
+/-- slot-wise: same type, same offset, value = a clone (`k ≥ 1`) of the original's value -/
+theorem cloneB_slots (cc : CloneCounts) (b : Builder) :
+    Pointwise (fun s s' => s'.ty = s.ty ∧ s'.off = s.off ∧ ∃ k, 1 ≤ k ∧ s'.val = cloneSerial s.val k)
+      b.arena.slots (b.cloneB cc).2.arena.slots := by
+  rw [cloneB_arena]
+  exact reval_rel b.arena.slots _ (fun v v' => ∃ k, 1 ≤ k ∧ v' = cloneSerial v k)
+    (cloneVals_rel cc b.arena.vals)
+
+/-- the same, by index -/
+theorem cloneB_slot (cc : CloneCounts) (b : Builder) :
+    (b.cloneB cc).2.arena.slots.length = b.arena.slots.length ∧
+    ∀ (i : Nat) (h : i < b.arena.slots.length) (h' : i < (b.cloneB cc).2.arena.slots.length),
+      ((b.cloneB cc).2.arena.slots[i]).ty = (b.arena.slots[i]).ty ∧
+      ((b.cloneB cc).2.arena.slots[i]).off = (b.arena.slots[i]).off ∧
+      ∃ k, 1 ≤ k ∧ ((b.cloneB cc).2.arena.slots[i]).val = cloneSerial (b.arena.slots[i]).val k :=
+  ⟨(cloneB_slots cc b).length_eq.symm, fun i h h' => (cloneB_slots cc b).get i h h'⟩
+
+/-- the clone's values are `cloneVals` of the originals, and it stores the same types -/
+theorem cloneB_vals (cc : CloneCounts) (b : Builder) :
+    (b.cloneB cc).2.arena.vals = (cloneVals cc b.arena.vals).2 ∧
+      (b.cloneB cc).1 = (cloneVals cc b.arena.vals).1 ∧
+      (b.cloneB cc).2.arena.slots.map (·.ty) = b.arena.slots.map (·.ty) ∧
+      (b.cloneB cc).2.arena.slots.map (·.off) = b.arena.slots.map (·.off) := by
+  have hv : (b.cloneB cc).2.arena.vals = (cloneVals cc b.arena.vals).2 := by
+    rw [vals_eq_valsOf, cloneB_arena]
+    apply reval_valsOf
+    rw [cloneVals_map_fst, Arena.vals, List.map_map]; rfl
+  refine ⟨hv, rfl, ?_, ?_⟩
+  · have := congrArg (List.map (·.1)) hv
+    rw [cloneVals_map_fst, Arena.vals, Arena.vals, List.map_map, List.map_map] at this
+    exact this
+  · rw [cloneB_arena]
+    exact reval_map_off _ _ (by rw [cloneVals_length]; simp [Arena.vals])
+
+theorem cloneB_typesNodup (cc : CloneCounts) (b : Builder) (h : b.arena.TypesNodup) :
+    (b.cloneB cc).2.arena.TypesNodup := by
+  unfold Arena.TypesNodup; rw [(cloneB_vals cc b).2.2.1]; exact h
+
+/-- every cloned value is a fresh serial derived from the original at the same position -/
+theorem cloneVals_rel (cc : CloneCounts) (l : List Comp) :
+    Pointwise (fun c c' => c'.1 = c.1 ∧ ∃ k, 1 ≤ k ∧ c'.2 = cloneSerial c.2 k) l (cloneVals cc l).2 :=
+  ArenaLemmas.cloneVals_rel cc l
+
+/-! ### 5. sorting the slots (`CommandBuffer`, `component_types` order) -/
+
+theorem sortSlots_perm (l : List Slot) : (CmdBuf.sortSlots l).Perm l := ArenaLemmas.sortSlots_perm l
+
+theorem sortSlots_sorted (l : List Slot) : (CmdBuf.sortSlots l).Pairwise (fun x y => x.ty ≤ y.ty) :=
+  ArenaLemmas.sortSlots_sorted l
+
+/-- sorting the slots of an arena preserves `get`, `vals` up to permutation and `TypesNodup` -/
+theorem sortSlots_preserves (a : Arena) (h : a.TypesNodup) :
+    (∀ t, ({ a with slots := CmdBuf.sortSlots a.slots } : Arena).get t = a.get t) ∧
+      (({ a with slots := CmdBuf.sortSlots a.slots } : Arena).vals).Perm a.vals ∧
+      ({ a with slots := CmdBuf.sortSlots a.slots } : Arena).TypesNodup :=
+  ⟨fun t => sortSlots_getOf a.slots h t, sortSlots_valsOf_perm a.slots, sortSlots_types_nodup a.slots h⟩
 
 end Hecs.Props.C13
